@@ -5,6 +5,7 @@
 #include <stdlib.h>
 #include <string.h>
 #include <float.h>
+#include <limits.h>
 #include <errno.h>
 
 #include "convert.h"
@@ -103,7 +104,8 @@ static int iterBoundaryReset(MPT_INTERFACE(iterator) *it)
 {
 	MPT_STRUCT(iteratorBoundary) *d = MPT_baseaddr(iteratorBoundary, it, _it);
 	d->pos = 0;
-	return d->elem;
+	/* negative values indicate failure */
+	return d->elem > INT_MAX ? INT_MAX : (int) d->elem;
 }
 
 /*!
